@@ -44,6 +44,9 @@ RecStep(s, op, a, b, ctx) ==
     [] op = "cas" -> LET c == (a \div 1000) + 1 exp == a % 1000 IN
                      IF s.cells[c] = exp THEN {Out([s EXCEPT !.cells[c] = b], 1, exp)} ELSE {Out(s, 0, 0)}
     [] op = "store" -> {Out([s EXCEPT !.cells[a + 1] = b], 0, 0)}
+    \* guard release and reclaim (retire + release) have no abstract effect of their own (their effect is in the rel / retire events logged just before);
+    \* they are operations so that solo probes start inside them (C16)
+    [] op \in {"release", "reclaim"} -> {Out(s, 0, 0)}
     \* cell values are  block number + 100 * mark  (C15: a guard's snapshot includes the mark the source held)
     [] op = "setmark" -> IF s.cells[a + 1] = 0 THEN {Out(s, 0, 0)} ELSE {Out([s EXCEPT !.cells[a + 1] = (@ % 100) + 100 * b], 1, 0)}
     [] OTHER -> {}
